@@ -72,7 +72,7 @@ class Woven:
         return t.count('\n', 0, max(orig_off, 0)) + 1
 
 
-def weave_tree(dst, contracts=None, extra_ops=None):
+def weave_tree(dst, contracts=None, extra_ops=None, auto_external=None):
     """dst: scratch dir.  Copies /repo/ipp there and weaves.  Returns Woven."""
     contracts = contracts if contracts is not None else load_contracts()
     w = Woven()
@@ -87,9 +87,20 @@ def weave_tree(dst, contracts=None, extra_ops=None):
         ghost.append(os.path.basename(p)[:-3])
     per_file = {}
     for m in contracts:
-        per_file.setdefault(m.FILE, []).extend(m.OPS)
+        per_file.setdefault(m.FILE, []).extend(dict(o) for o in m.OPS)
     for f, ops in (extra_ops or {}).items():
         per_file.setdefault(f, []).extend(ops)
+    # functions whose bodies Verus rejected (unsupported construct): keep the contract, leave the body outside
+    for (f, fnpath) in sorted(auto_external or []):
+        ops = per_file.setdefault(f, [])
+        hit = [o for o in ops if o.get('op') == 'fn' and o.get('path') == fnpath]
+        if hit:
+            for o in hit:
+                o2 = {k: v for k, v in o.items() if k in ('op', 'path', 'ret', 'spec')}
+                o2['attrs'] = [a for a in o.get('attrs', []) if 'external' not in a and 'loop_isolation' not in a] + ['#[verifier::external_body]']
+                ops[ops.index(o)] = o2
+        else:
+            ops.append({'op': 'fn', 'path': fnpath, 'attrs': ['#[verifier::external_body]']})
     # lib.rs prelude: vstd + ghost modules
     lib_ops = per_file.setdefault('ipp/src/lib.rs', [])
     lib_ops.insert(0, {'op': 'prelude', 'after_mods': True,
@@ -188,9 +199,9 @@ def describe_span(woven, sp):
     loc = woven.locate(rel, cs)
     d = {'file': rel, 'text': norm(text)[:160], 'label': sp.get('label')}
     if loc[0] == 'ins':
-        d.update(kind='contract', anchor=loc[1], rule=loc[2], line=woven.orig_line(rel, loc[3]))
+        d.update(kind='contract', anchor=loc[1], rule=loc[2], line=woven.orig_line(rel, loc[3]), orig_off=loc[3])
     elif loc[0] == 'src':
-        d.update(kind='source', line=woven.orig_line(rel, loc[1]))
+        d.update(kind='source', line=woven.orig_line(rel, loc[1]), orig_off=loc[1])
     else:
         d.update(kind='ghost', line=sp.get('line_start'))
     return d
@@ -217,6 +228,8 @@ def enclosing_fn(woven, rel, orig_off):
                     nm = it.name
                     if it.kind == 'impl' and ' for ' in nm:
                         nm = '<' + nm + '>'
+                    if it.kind == 'trait':
+                        nm = 'trait ' + nm
                     walk(it.children, prefix + nm + '::')
     walk(src.items, '')
     return best
@@ -252,6 +265,16 @@ def classify(woven, res):
         if prim:
             if prim['kind'] == 'contract':
                 owner = prim['anchor'].split('#')[0]
+                if prim['anchor'].endswith('#append'):
+                    # ghost item appended to the module: name it by the enclosing (proof) fn in the woven text
+                    sp = next((x for x in spans if x.get('is_primary')), spans[0])
+                    rel = rel_of(woven, sp['file_name'])
+                    cs = char_span(woven, rel, sp)[0]
+                    m = None
+                    for m in re.finditer(r'\bfn\s+(\w+)', woven.files[rel]['woven_text'][:cs]):
+                        pass
+                    if m:
+                        owner = f'{owner}::{m.group(1)}'
             elif prim['kind'] == 'source':
                 rel = prim['file']
                 f = woven.files.get(rel)
@@ -283,3 +306,38 @@ def function_results(res):
         for f in m.get('function-breakdown', []) or []:
             out.append((m.get('module'), f.get('function'), f.get('success'), f.get('time-micros'), f.get('rlimit')))
     return out
+
+
+def verify_isolating(scratch, extra=(), max_rounds=6, log=None):
+    """Weave and run Verus; when Verus rejects the crate because a function body uses a construct it does not support,
+    re-weave with that function's body left outside (external_body, contract kept as an assumption) and try again.
+    -> (woven, res, fails, hard, auto_external:list of (file, fnpath, reason))"""
+    auto = {}
+    woven = res = fails = hard = None
+    for rnd in range(max_rounds):
+        d = os.path.join(scratch, f'woven{rnd}')
+        woven = weave_tree(d, auto_external=list(auto.keys()))
+        res = run_verus(woven, extra)
+        fails, hard = classify(woven, res)
+        comp = [h for h in hard if h['kind'] == 'compile']
+        if not comp:
+            break
+        new = False
+        for h in comp:
+            for sp in h['spans']:
+                if sp.get('kind') not in ('source', 'contract') or sp.get('orig_off') is None:
+                    continue
+                if sp['file'] not in woven.files:
+                    continue
+                fnp = enclosing_fn(woven, sp['file'], sp['orig_off'])
+                if fnp and (sp['file'], fnp) not in auto:
+                    auto[(sp['file'], fnp)] = h['message'][:200]
+                    new = True
+                if fnp:
+                    break
+        if log:
+            log(f'round {rnd}: Verus rejected the crate; leaving outside: {sorted(auto)}')
+        if not new:
+            break
+        shutil.rmtree(d, ignore_errors=True)
+    return woven, res, fails, hard, [(f, p, why) for (f, p), why in auto.items()]
